@@ -22,6 +22,12 @@ SHIM_DIR = os.path.join(ROOT, "shim")
 WORK = os.path.join(ROOT, "work")
 REPLAYS = os.path.join(ROOT, "replays")
 EVIDENCE = os.path.join(ROOT, "evidence")
+if os.environ.get("VERIF_REPO", "/repo") != "/repo":
+    # development runs against a scratch copy of the library (seeded changes, refactors): own scratch area per process,
+    # so that they neither disturb a run on /repo nor overwrite its evidence
+    WORK = os.path.join(ROOT, "work", "scratch-%d" % os.getpid())
+    REPLAYS = os.path.join(WORK, "replays")
+    EVIDENCE = os.path.join(WORK, "evidence")
 KNOWN = os.path.join(ROOT, "known_findings.txt")
 TLA_JAR = "/opt/veriftools/tla/tla2tools.jar:/opt/veriftools/tla/CommunityModules-deps.jar"
 REPO = os.environ.get("VERIF_REPO", "/repo")
@@ -301,7 +307,16 @@ class Run:
         # the shim runs shards sequentially (cheap); TLC validations run in parallel
         t0 = time.time()
         for sp, ep, index, chunk in jobs:
-            run_shim(sp, ep, mode=mode)
+            try:
+                run_shim(sp, ep, mode=mode)
+            except ToolError as e:
+                if mode != "run":
+                    raise
+                # the library took the whole process down (abort, stack overflow, out of memory) on one of the calls:
+                # run the shard again under the supervisor, which isolates every call in a worker process, records the
+                # crash as that call's outcome and carries on; the trace specification then rejects that event
+                log("[conform] %s: %s - re-running the shard under the supervisor" % (os.path.basename(sp), str(e)[:80]))
+                run_shim(sp, ep, mode="supervise")
             if post:
                 # pure re-encoding of bulky observed fields (e.g. patch bytes -> abstract chunk list)
                 lines = [json.dumps(post(json.loads(x)), separators=(",", ":")) for x in open(ep)]
